@@ -31,6 +31,7 @@ type OverloadScenario struct {
 		Interval int   `json:"interval_ms"`
 		Bursts   []int `json:"bursts"`
 		Waits    []int `json:"waits_ms"`
+		Sessions int   `json:"sessions"`
 	} `json:"rate"`
 }
 
@@ -295,11 +296,21 @@ func runRate(rec *Rec, sc *OverloadScenario, n int) {
 		}
 		rec.Flush()
 	}()
-	a, b := Pipe(fmt.Sprintf("QC%d", n), fmt.Sprintf("QS%d", n))
-	sd := make(chan struct{})
-	go func() { srv.ServeConn(b); close(sd) }()
-	cs, _ := cli.ServeConn(a)
-	<-sd
+	// several sessions: each session's reader takes tokens on its own goroutine, so the bucket sees truly
+	// concurrent takes (one session alone would serialise them)
+	nsess := r.Sessions
+	if nsess < 1 {
+		nsess = 1
+	}
+	var css []erpc.Session
+	for k := 0; k < nsess; k++ {
+		a, b := Pipe(fmt.Sprintf("QC%d.%d", n, k), fmt.Sprintf("QS%d.%d", n, k))
+		sd := make(chan struct{})
+		go func() { srv.ServeConn(b); close(sd) }()
+		c, _ := cli.ServeConn(a)
+		<-sd
+		css = append(css, c)
+	}
 	start := time.Now()
 	lastTicks := 0
 	for i, burst := range r.Bursts {
@@ -320,7 +331,7 @@ func runRate(rec *Rec, sc *OverloadScenario, n int) {
 			wg.Add(1)
 			go func(j int) {
 				defer wg.Done()
-				cs.Push(PushRoute, &Arg{Tag: fmt.Sprintf("qp%d.%d", i, j)})
+				css[j%len(css)].Push(PushRoute, &Arg{Tag: fmt.Sprintf("qp%d.%d", i, j)})
 			}(j)
 		}
 		for j := 0; j < burst-pushes; j++ {
@@ -328,7 +339,7 @@ func runRate(rec *Rec, sc *OverloadScenario, n int) {
 			go func(j int) {
 				defer wg.Done()
 				res := new(Res)
-				cmd := cs.Call(CallRoute, &Arg{Tag: fmt.Sprintf("q%d.%d", i, j)}, res)
+				cmd := css[j%len(css)].Call(CallRoute, &Arg{Tag: fmt.Sprintf("q%d.%d", i, j)}, res)
 				mu.Lock()
 				if cmd.StatusOK() {
 					admitted++
